@@ -161,6 +161,8 @@ def render(spec, allspecs=None):
         lines.append('    %s FROM %s' % (spec.get('defval_sym') or root_sym(dd), dd))
     if spec.get('shadow_dep') and not spec.get('smiv1'):
         lines.append('    DisplayString FROM %s' % spec['shadow_dep'])
+        if spec.get('shadow_twice'):
+            lines.append('    DisplayString FROM SNMPv2-TC')      # the same symbol listed under two modules of one clause
     lines[-1] += ';'
     lines.append('')
     parent = root_sym(spec['oidparent']) if spec.get('oidparent') else 'enterprises'
@@ -359,6 +361,8 @@ def gen_modules(rng, n, cycles=True, defects=0.0, compliance=0.3, identity=0.7, 
             # gets from SNMPv2-TC: the module is named in IMPORTS all the same
             others = [x for x in lower if x not in imports]
             spec['shadow_dep'] = rng.choice(others) if others and rng.random() < 0.5 else 'LOST-MIB'
+            if rng.random() < 0.5:
+                spec['shadow_twice'] = True
         if enumtc and rng.random() < enumtc:
             spec['enumtc'] = True
             if rng.random() < 0.3:
@@ -404,4 +408,6 @@ def declared_imports(spec):
         out.append(spec['defval_dep'])
     if spec.get('shadow_dep') and not spec.get('smiv1'):
         out.append(spec['shadow_dep'])
+        if spec.get('shadow_twice'):
+            out.append('SNMPv2-TC')
     return out
